@@ -551,6 +551,54 @@ def check_window(chk, rule, prog, kinds, floor, control):
     return n
 
 
+def check_push_atomic(chk, rule, prog, eff):
+    """The decoding stack's push either links a record and counts it, or refuses and leaves the stack exactly as it was: on every
+    path of `_cbor_stack_push` that returns NULL no field of the stack header has been written (the depth counts the records that
+    are linked - the unwinding loop of cbor_load pops `size` records), and on every path that returns a record the header's top
+    is that record and the depth has grown by one."""
+    import paths as P
+    import ownership as O
+    f = prog.fn("_cbor_stack_push")
+    si = 0
+    for i_, p_ in enumerate(f.params):
+        if p_["type"].endswith("_cbor_stack*"):
+            si = i_
+    S = ("arg", si)
+    size_off, top_off = prog.field_offset("_cbor_stack", "size"), prog.field_offset("_cbor_stack", "top")
+    n = 0
+    for k, pa in enumerate(P.Executor(prog, eff, inline=O.static_callees(prog, eff, f.name)).run(f.name)):
+        hdr = [e for e in pa.events if e.kind == "store" and P.ptr_key(e.args[0])[0] == S]
+        n += 1
+        if pa.ret == ("c", 0) or pa.st.known_null(pa.ret):
+            ok = not hdr
+            chk.ob(rule, "_cbor_stack_push path %d: a refused push leaves the stack header untouched" % k, ok, "%s:%d" % (f.file, f.line), fn=f.name,
+                   key="pushatomic:null:%d" % k, detail="" if ok else "writes the header at %s and then reports that nothing was pushed: the depth no "
+                   "longer equals the number of linked records, and whoever unwinds `size` records walks off the end of the list"
+                   % ", ".join(e.ins.loc() for e in hdr), path=pa.block_lines() if not ok else None)
+        else:
+            tops = [e for e in hdr if P.ptr_key(e.args[0])[1] == top_off]
+            sizes = [e for e in hdr if P.ptr_key(e.args[0])[1] == size_off]
+            grew = False
+            if sizes:
+                lin = P.linear(sizes[-1].args[1])
+                atoms = [a for a in lin if a != 1]
+                # the new depth is the depth the header held on entry (however it was read: directly, or through a working copy) plus one
+                grew = lin.get(1) == 1 and len(atoms) == 1 and lin[atoms[0]] == 1 and isinstance(atoms[0], tuple) and atoms[0][0] == "ld" and \
+                    P.ptr_key(atoms[0][1])[0] == S and (P.ptr_key(atoms[0][1])[1] + (atoms[0][2] if len(atoms[0]) > 2 and isinstance(atoms[0][2], int) else 0)) == size_off
+
+            def same(a, b):
+                while isinstance(a, tuple) and a[0] == "cast":
+                    a = a[3]
+                while isinstance(b, tuple) and b[0] == "cast":
+                    b = b[3]
+                return a == b
+            ok = bool(tops) and same(tops[-1].args[1], pa.ret) and grew
+            chk.ob(rule, "_cbor_stack_push path %d: the returned record is the new top and the depth has grown by one" % k, ok, "%s:%d" % (f.file, f.line),
+                   fn=f.name, key="pushatomic:ok:%d" % k, detail="" if ok else "top := %s, depth written %d time(s)" % (
+                       tops[-1].args[1] if tops else "not written", len(sizes)), path=pa.block_lines() if not ok else None)
+    chk.floor(rule, "paths of _cbor_stack_push", n, 3)
+
+
 def check_stop_cfg(chk, rule, prog, eff):
     """A must-pass-through rule on the flow graph of cbor_load (no path enumeration, so it also answers when the routine has grown
     too many paths for the path engine): between two steps that can hand an item to the tree builder - a call of the streaming
